@@ -222,34 +222,31 @@ Section Bounded.
     assert ((tc + 1) mod 18446744073709551616 = tc + 1) as Emod by (apply Z.mod_small; lia).
     assert ((cc + 1) mod 18446744073709551616 = cc + 1) as Emodc by (apply Z.mod_small; lia).
     rewrite ?Emod, ?Emodc in E.
-    destruct k; cbn in E.
-    - (* RkDrop *) injection E as <- <-. scbn. fin.
-    - (* RkAnswer *) injection E as <- <-. scbn. fin.
-    - (* RkErr *)
-      destruct (cfg_nocheckresp cfg); cbn in E; [injection E as <- <-; scbn; fin|].
-      destruct ((tc + 1 <? servers * cfg_tries cfg) && negb nr) eqn:G.
-      + apply andb_prop in G. destruct G as [G _]. b2p. injection E as <- <-; scbn; fin.
-      + injection E as <- <-. scbn. fin.
-    - (* RkTC *)
-      destruct on_tcp; cbn in E; [injection E as <- <-; scbn; fin|].
-      destruct (cfg_igntc cfg); cbn in E; [injection E as <- <-; scbn; fin|].
-      pose proof (t_used_true (Fv eq_refl)) as Tt.
-      injection E as <- <-. scbn. fin.
-    - (* RkEdns *)
-      destruct ho; cbn in E; [|injection E as <- <-; scbn; fin].
-      pose proof (e_used_false (H3 eq_refl)) as Ef.
-      injection E as <- <-. scbn. fin.
-    - (* RkFormerrOpt *)
-      destruct ho; cbn in E; [|injection E as <- <-; scbn; fin].
-      destruct rc; cbn in E; [|injection E as <- <-; scbn; fin].
-      pose proof (e_used_false (H3 eq_refl)) as Ef.
-      injection E as <- <-. scbn. fin.
-    - (* RkBadCookie *)
-      destruct rc; cbn in E; [|injection E as <- <-; scbn; fin].
+    destruct k as [kdrop kbad kformerr kopt ktc kerr]. cbn [r_drop r_cookie_bad r_formerr r_has_opt r_tc r_err] in E.
+    destruct kdrop; cbn in E; [injection E as <- <-; scbn; fin|].
+    destruct (kbad && rc) eqn:Ebad.
+    { (* BADCOOKIE acted upon *)
+      apply andb_prop in Ebad. destruct Ebad as [_ ->].
       pose proof (Fr eq_refl) as ->. pose proof (Fc eq_refl) as Hcc.
       destruct ((tc <? servers * cfg_tries cfg) && negb nr) eqn:G.
       + apply andb_prop in G. destruct G as [G _]. b2p.
         destruct (cc + 1 >=? 3) eqn:G3; b2p; injection E as <- <-; scbn; fin.
-      + destruct (cc + 1 >=? 3) eqn:G3; b2p; injection E as <- <-; scbn; fin.
+      + destruct (cc + 1 >=? 3) eqn:G3; b2p; injection E as <- <-; scbn; fin. }
+    destruct (kformerr && ho && (negb kopt || rc)) eqn:Eedns.
+    { (* EDNS downgrade *)
+      apply andb_prop in Eedns. destruct Eedns as [Eedns _]. apply andb_prop in Eedns. destruct Eedns as [_ ->].
+      pose proof (e_used_false (H3 eq_refl)) as Ef.
+      injection E as <- <-. scbn. fin. }
+    destruct (ktc && negb on_tcp && negb (cfg_igntc cfg)) eqn:Etc.
+    { (* TCP upgrade *)
+      apply andb_prop in Etc. destruct Etc as [Etc _]. apply andb_prop in Etc. destruct Etc as [_ Etc].
+      apply negb_true_iff in Etc. subst on_tcp.
+      pose proof (t_used_true (Fv eq_refl)) as Tt.
+      injection E as <- <-. scbn. fin. }
+    destruct kerr as [st|]; [|injection E as <- <-; scbn; fin].
+    destruct (cfg_nocheckresp cfg); cbn in E; [injection E as <- <-; scbn; fin|].
+    destruct ((tc + 1 <? servers * cfg_tries cfg) && negb nr) eqn:G.
+    + apply andb_prop in G. destruct G as [G _]. b2p. injection E as <- <-; scbn; fin.
+    + injection E as <- <-. scbn. fin.
   Qed.
 End Bounded.
